@@ -1273,6 +1273,19 @@ func (d *Decoder) processParseTypeCollectionPropertyElt(ectx evaluationContext, 
 	}
 }
 
+// reifiedTextOffsets gives the rdf:subject/rdf:predicate/rdf:object statement of a reification the
+// range the reified statement has for that term as its object range, if it has one.
+func reifiedTextOffsets(t statement, k encoding.StatementOffsetsType) encoding.StatementTextOffsets {
+	v, ok := t.textOffsets[k]
+	if !ok {
+		return nil
+	}
+
+	return encoding.StatementTextOffsets{
+		encoding.ObjectStatementOffsets: v,
+	}
+}
+
 func (d *Decoder) addReify(ectx evaluationContext, id string, t statement) {
 	idr := ectx.ResolveIRI("#" + id)
 
@@ -1291,9 +1304,7 @@ func (d *Decoder) addReify(ectx evaluationContext, id string, t statement) {
 				Predicate: rdfiri.Subject_Property,
 				Object:    t.triple.Subject,
 			},
-			textOffsets: encoding.StatementTextOffsets{
-				encoding.ObjectStatementOffsets: t.textOffsets[encoding.SubjectStatementOffsets],
-			},
+			textOffsets: reifiedTextOffsets(t, encoding.SubjectStatementOffsets),
 			containerResource: ectx.CurrentContainer,
 		},
 		statement{
@@ -1302,9 +1313,7 @@ func (d *Decoder) addReify(ectx evaluationContext, id string, t statement) {
 				Predicate: rdfiri.Predicate_Property,
 				Object:    t.triple.Predicate,
 			},
-			textOffsets: encoding.StatementTextOffsets{
-				encoding.ObjectStatementOffsets: t.textOffsets[encoding.PredicateStatementOffsets],
-			},
+			textOffsets: reifiedTextOffsets(t, encoding.PredicateStatementOffsets),
 			containerResource: ectx.CurrentContainer,
 		},
 		statement{
@@ -1313,9 +1322,7 @@ func (d *Decoder) addReify(ectx evaluationContext, id string, t statement) {
 				Predicate: rdfiri.Object_Property,
 				Object:    t.triple.Object,
 			},
-			textOffsets: encoding.StatementTextOffsets{
-				encoding.ObjectStatementOffsets: t.textOffsets[encoding.ObjectStatementOffsets],
-			},
+			textOffsets: reifiedTextOffsets(t, encoding.ObjectStatementOffsets),
 			containerResource: ectx.CurrentContainer,
 		},
 	)
